@@ -17,7 +17,7 @@ ASSUMPTIONS = ["stub signers whose signature is a keyed hash of the token stand 
                "a raising auth callback propagates; only `available == False` is demanded then", "auth_timeout_s=None is exercised only with a device that answers"]
 SHARDS = {"quick": 8, "thorough": 16}
 TIME_BUDGET = {"quick": 60, "thorough": 600}
-FLOORS = {"quick": {"signatures_checked": 500, "pubkey_offers": 100, "connects": 800, "distinct": 300, "rechallenges_after_pubkey": 50}, "thorough": {"signatures_checked": 5000, "connects": 8000}}
+FLOORS = {"quick": {"signatures_checked": 500, "pubkey_offers": 100, "connects": 2000, "distinct": 800, "rechallenges_after_pubkey": 50}, "thorough": {"signatures_checked": 5000, "connects": 8000}}
 EXHAUSTIVE = {"quick": False, "thorough": True}
 
 MAXDATAS = [4096, 8192, 65536, 1024 * 1024, 5000]
@@ -85,7 +85,7 @@ def gen_cases(tier, seed):
             yield {"impl": ("sync", "async")[j % 2], "first": {"nkeys": 2, "outcome": ["key0", "key1", "pubkey"][j % 3], "bad": None, "cb": "rec"}, "maxdata": 4096, "strays": 0, "second": None, "seed": "%d:r%d" % (seed, j), "real": True}
     else:
         rng = gen.rng_for("C05gen", seed)
-        for i in range(1000):
+        for i in range(2500):
             c = grid[(i * 13 + rng.randrange(len(grid))) % len(grid)] if i >= len(grid) else grid[i]
             second = rng.choice(grid) if i % 3 == 0 else None
             yield {"impl": ("sync", "async")[i % 2], "first": c, "maxdata": MAXDATAS[i % len(MAXDATAS)], "strays": (i // 5) % len(STRAYS), "second": second, "seed": "%d:%d" % (seed, i), "real": False}
